@@ -92,8 +92,9 @@ def disambiguate_closures(text):
             i = j + 1
         else:
             i += 1
-    agg = re.compile(r'= \{(closure|coroutine)@(src/lib\.rs:\d+:\d+: \d+:\d+)[^}]*\}')
+    agg = re.compile(r'(?:= |const ZeroSized: )\{(closure|coroutine)@(src/lib\.rs:\d+:\d+: \d+:\d+)[^}]*\}')
     by_name = {}
+    used = {}
     for it in items:
         by_name.setdefault(it[2], []).append(it)
     for (a, b, name, header) in items:
@@ -110,10 +111,16 @@ def disambiguate_closures(text):
             if kind != 'closure':
                 continue
             child = [c for c in by_name.get('%s::{closure#%d}' % (name, idx), []) if span in c[3]]
+            if len(child) > 1:
+                # several items of one name (the `const _` assertions an `expr =` attribute adds): the n-th of them that
+                # builds its closure #idx owns the n-th child body of that name (rustc prints both in source order)
+                nth = used.get((name, idx, span), 0)
+                used[(name, idx, span)] = nth + 1
+                child = child[nth:nth + 1]
             if len(child) != 1:
                 raise Inconclusive('macro probe: closure #%d of %s: %d child bodies' % (idx, name, len(child)))
             new_ty = '{closure@%s @@%s::{closure#%d}}' % (span, name.replace('{', '(').replace('}', ')'), idx)
-            lines[li] = lines[li].replace('{closure@%s}' % span, new_ty, 1)
+            lines[li] = lines[li].replace('{closure@%s}' % span, new_ty, 1 if '= {closure@' in lines[li] else -1)
             ca = child[0][0]
             head = lines[ca]
             # the self parameter of the child: first occurrence of the closure type in its header
@@ -282,29 +289,38 @@ def confirm(chk, o, prop, fnames):
 
 # ------------------------------------------------------------------------------------------------ dispatch (C19)
 # probe function -> the captures it declares (in order) and whether a `#[step]` argument follows them
+# names: what the regex engine reports as the name of each capture group (index 0 = the whole match); `args`: for each
+# argument the groups it is made of - the FIRST NON-EMPTY of them is what FromStr gets (a custom Parameter with several
+# capturing groups: cucumber-expressions names those groups `__<parameter>_<group>`; observed natively, driver line NAMES)
 DISPATCH = {
     'then_two_args': dict(types=['u64', 'String'], step=False),
     'given_step_arg': dict(types=['u64'], step=True),
     'when_async_arg': dict(types=['i32'], step=False),
+    'expr_custom': dict(types=['Ordinal', 'u32', 'String'], step=False, names=[None, '__0_0', '__0_1', None, None], args=[[1, 2], [3], [4]]),
+    'slice_args': dict(types=['u64', 'u64', 'u64'], step=False, slice=True),
 }
 
 
-def wrappers(prog2):
-    """user fn name -> (poll body of the generated async block, parent closure body, user fn body)"""
+def wrappers_all(prog2):
+    """user fn name -> [(poll body of the generated async block, parent closure body, user fn body)], one per attribute"""
     out = {}
     for name, b in prog2.bodies.items():
         if not (b.params and b.params[0][1].startswith('Pin<&mut {async block@src/lib.rs')):
             continue
         src = '\n'.join(b.text)
-        mm = re.search(r'= (\w+)\((?:copy|move) _\d+', src)
         cands = [x for x in re.findall(r'= (\w+)\((?:copy|move) _\d+', src) if x in prog2.bodies]
         if not cands:
             continue
         span = re.search(r'@(src/lib\.rs:\d+:\d+: \d+:\d+)', b.params[0][1]).group(1)
         parent = [p for n2, p in prog2.bodies.items() if '{coroutine@%s' % span in '\n'.join(p.text) and p is not b]
         if len(parent) == 1:
-            out[cands[0]] = (b, parent[0], prog2.bodies[cands[0]])
+            out.setdefault(cands[0], []).append((b, parent[0], prog2.bodies[cands[0]]))
     return out
+
+
+def wrappers(prog2):
+    """user fn name -> (poll body of the generated async block, parent closure body, user fn body) of its first attribute"""
+    return {k: v[0] for k, v in wrappers_all(prog2).items()}
 
 
 @common.part
@@ -349,12 +365,26 @@ def dispatch_obligations(chk, prop):
         M.table['str::parse'] = parse
         M.table['Borrow::borrow'] = lambda ex_, info, a, dty: a[0]        # `impl<T> Borrow<T> for T`: the value itself
 
-        def run(ex_, pb=pb, parent=parent, M=M, n=n):
+        names = spec.get('names') or [None] * (n + 1)
+        groups_of = spec.get('args') or [[i + 1] for i in range(n)]
+        multi = {g for gs in groups_of if len(gs) > 1 for g in gs}
+        M.table['Vec::as_slice'] = lambda ex_, info, a, dty: a[0]        # the slice view of a Vec: the same storage
+
+        def run(ex_, pb=pb, parent=parent, M=M, names=names, groups_of=groups_of, multi=multi):
             w = Cell(Lazy('W', 'world'), name='world')
-            matches = Obj('vec', items=tuple(Adt('(Option<String>, String)', {(None, 0): Adt('Option<String>', {}, 0), (None, 1): Obj('symstr', name='m%d' % i)})
-                                             for i in range(n + 1)), ty='Vec<(Option<String>, String)>')
-            for i in range(n + 1):
-                ex_.add(z3.Not(z3.Bool('is-empty(m%d)' % i)))        # capture texts are non-empty (an empty capture parses as "")
+
+            def cap_name(nm):
+                if nm is None:
+                    return Adt('Option<String>', {}, 0)
+                return Adt('Option<String>', {(1, 0): Obj('str', text='"%s"' % nm)}, 1)
+            matches = Obj('vec', items=tuple(Adt('(Option<String>, String)', {(None, 0): cap_name(nm), (None, 1): Obj('symstr', name='m%d' % i)})
+                                             for i, nm in enumerate(names)), ty='Vec<(Option<String>, String)>')
+            for i in range(len(names)):
+                if i not in multi:
+                    ex_.add(z3.Not(z3.Bool('is-empty(m%d)' % i)))        # capture texts are non-empty (an empty capture parses as "")
+            for gs in groups_of:
+                if len(gs) > 1:       # the groups of one parameter: any of them may be empty (did not take part), not all
+                    ex_.add(z3.Or(*[z3.Not(z3.Bool('is-empty(m%d)' % g)) for g in gs]))
             ctx = Adt('cucumber::step::Context', {(None, CX.index('step')): Lazy('gherkin::Step', 'ctx.step'), (None, CX.index('matches')): matches})
             co = initial_future(pb, Ref(w, ()), ctx.fields[(None, CX.index('step'))], matches, ctx)
             pin = Adt('Pin<&mut coroutine>', {(None, 0): Ref(Cell(co, name='wrapper future'), ())})
@@ -372,6 +402,8 @@ def dispatch_obligations(chk, prop):
                     v = ex_.materialize(ex_.read_path(v.cell, v.path))
             if isinstance(v, Obj) and v.kind == 'parsed':
                 return 'parse(%s)' % v.of
+            if isinstance(v, Obj) and v.kind == 'vec':
+                return [describe(ex_, x_) for x_ in v.items]
             if isinstance(v, (Lazy, Adt)) and getattr(v, 'name', None):
                 return v.name
             return repr(v)[:40]
@@ -393,10 +425,23 @@ def dispatch_obligations(chk, prop):
             if failed:
                 bad.append((fname, 'capture %s did not parse, yet the wrapper completed (the function was %s)' % (failed[0][0], 'called' if res['calls'] else 'not called')))
                 return
-            want = ['world'] + ['parse(m%d)' % (i + 1) for i in range(n)] + (['ctx.step'] if spec['step'] else [])
             got = [[describe(ex_, a_) for a_ in c_] for c_ in res['calls']]
-            if got != [want]:
-                bad.append((fname, 'the function was called with %s, the captures in declaration order are %s' % (got, want)))
+            # which groups are empty on this path: decided by the path where the code looked, otherwise every way round
+            und = [g for g in sorted(multi) if ex_.check(z3.Bool('is-empty(m%d)' % g)) and ex_.check(z3.Not(z3.Bool('is-empty(m%d)' % g)))]
+            import itertools
+            for vals in itertools.product((False, True), repeat=len(und)):
+                cs = [z3.Bool('is-empty(m%d)' % g) == z3.BoolVal(v_) for g, v_ in zip(und, vals)]
+                o.queries += 1
+                if not ex_.check(*cs):
+                    continue
+                mdl = ex_.solver.model()
+                empty = {g: z3.is_true(mdl.eval(z3.Bool('is-empty(m%d)' % g), model_completion=True)) for g in multi}
+                srcs = ['parse(m%d)' % next(g for g in gs if not empty.get(g, False)) for gs in groups_of]
+                want = ['world'] + ([srcs] if spec.get('slice') else srcs) + (['ctx.step'] if spec['step'] else [])
+                if got != [want]:
+                    bad.append((fname, 'the function was called with %s; the captures in declaration order%s are %s' % (
+                        got, (' (groups %s empty)' % [g for g in multi if empty[g]]) if multi else '', want)))
+                    break
         ex.explore(run, on_end)
     if bad and o.verdict != 'inconclusive':
         o.verdict = 'violated'
@@ -419,7 +464,8 @@ def confirm_dispatch(chk, o, prop):
     chk.replays += 1
     got = dict(re.findall(r'DISPATCH (\w+) (.*)', out))
     want = {'then_two_args': 'outcome=passed args=7,seven', 'then_two_args_bad': 'outcome=failed args=-', 'given_step_arg': 'outcome=passed args=5,step arg 5',
-            'when_async_arg': 'outcome=passed args=-3'}
+            'when_async_arg': 'outcome=passed args=-3', 'expr_custom': 'outcome=passed args=2,5,shelf', 'expr_custom_bad': 'outcome=failed args=-',
+            'slice_args': 'outcome=passed args=1,2,3', 'slice_args_bad': 'outcome=failed args=-'}
     if not got:
         o.verdict = 'inconclusive'
         o.detail += ' | native replay failed: %s' % out[-300:]
